@@ -835,8 +835,37 @@ def scalar_write_kinds(db, f):
             continue
         cv = const_value(w["rhs"]) if (w.get("op") == "=" and w.get("rhs") is not None) else None
         out.setdefault(field_key(f, s), []).append(("const", cv, w.get("l")) if cv is not None else ("data", None, w.get("l")))
+    def classy(t):
+        return (t or {}).get("kind") == "rec"
+
+    # members of class type (std::string, std::vector, ...): default construction leaves them empty ("const"); construction
+    # from arguments, assignment, a non-const member call other than clear(), or handing them to a callee that may write
+    # through the argument fills them ("data")
+    for ini in f.raw.get("inits", []):
+        if ini.get("field") and isinstance(ini.get("init"), dict) and ini.get("rec"):
+            fd = db.field(ini["rec"], ini["field"])
+            if fd is None or fd[2][fd[1]["t"]]["kind"] != "rec":
+                continue
+            i0 = ini["init"]
+            empty = i0["k"] == "CXXConstructExpr" and not i0.get("args")
+            out.setdefault((ini["rec"], ini["field"]), []).append(("const", "default-constructed", f.line) if empty else ("data", None, f.line))
     for n in f.live_nodes():
-        if n["k"] in ("CallExpr", "CXXMemberCallExpr"):
+        if n["k"] == "CXXOperatorCallExpr" and n.get("args") and (n.get("fn") or "").endswith(("operator=", "operator+=")):
+            a = strip(n["args"][0])
+            if a["k"] == "MemberExpr" and a.get("mk") == "field" and classy(f.type(a)):
+                out.setdefault(field_key(f, a), []).append(("data", None, n.get("l")))
+        if n["k"] == "CXXMemberCallExpr" and n.get("obj") is not None and not n.get("fconst"):
+            a = strip(n["obj"])
+            if a["k"] == "MemberExpr" and a.get("mk") == "field" and classy(f.type(a)):
+                if callee_name(n) == "clear":
+                    out.setdefault(field_key(f, a), []).append(("const", "cleared", n.get("l")))
+                elif callee_name(n) in ("data", "begin", "end", "rbegin", "rend", "at", "front", "back", "c_str", "operator[]"):
+                    # the non-const overload of an accessor: it may be used to fill the member (counts on the load side) but is no
+                    # evidence that it is written (does not count on the building / operation side)
+                    out.setdefault(field_key(f, a), []).append(("maybe", None, n.get("l")))
+                else:
+                    out.setdefault(field_key(f, a), []).append(("data", None, n.get("l")))
+        if n["k"] in ("CallExpr", "CXXMemberCallExpr", "CXXConstructExpr"):
             cand = [n["args"][i] for i in n.get("pw", []) if i < len(n.get("args", []))]
             if callee_name(n) == "read" and n.get("args"):
                 cand.append(n["args"][0])
@@ -846,7 +875,7 @@ def scalar_write_kinds(db, f):
                     a = strip(a["sub"])
                 if a["k"] == "UnaryOperator" and a["op"] == "&":
                     a = strip(a["sub"])
-                if a["k"] == "MemberExpr" and a.get("mk") == "field" and scalar(f.type(a)):
+                if a["k"] == "MemberExpr" and a.get("mk") == "field" and (scalar(f.type(a)) or classy(f.type(a))):
                     out.setdefault(field_key(f, a), []).append(("data", None, n.get("l")))
     return out
 
@@ -895,7 +924,7 @@ def _derived(db, rep, kind_ok=None, rec_ok=None):
             for fid in uclo:
                 g = db.funcs[fid]
                 if not (g.is_ctor or g.is_dtor):
-                    opw |= set(Wk(fid))
+                    opw |= {key for key, ws in Wk(fid).items() if any(w[0] != "maybe" for w in ws)}
             nobl = 0
             for fid in sorted(uclo):
                 g = db.funcs[fid]
@@ -918,7 +947,7 @@ def _derived(db, rep, kind_ok=None, rec_ok=None):
                     nobl += 1
                     rep.ob()
                     b_data = [(x, w) for x, w in bw[key] if w[0] == "data" and x not in lclo]
-                    l_data = [(x, w) for x, w in lw[key] if w[0] == "data"]
+                    l_data = [(x, w) for x, w in lw[key] if w[0] in ("data", "maybe")]
                     if not b_data or l_data:
                         continue
                     vk = "%s:%s::%s" % (k, rec, fld)
@@ -926,7 +955,7 @@ def _derived(db, rep, kind_ok=None, rec_ok=None):
                         continue
                     seen.add(vk)
                     bx, bwr = b_data[0]
-                    consts = sorted({str(w[1]) for _x, w in lw[key]})
+                    consts = sorted({str(w[1]) for _x, w in lw[key] if w[0] == "const"})
                     rep.viol(vk, "%s:%s" % (g.file, line),
                              "%s::%s is read by %s (%s) on a loaded %s; the building path computes it from the data (%s, %s:%s) but everything "
                              "reachable from %s only ever stores the constant %s into it: the loaded object's %s does not describe the loaded data" % (
@@ -1010,8 +1039,18 @@ def _cumulative_passes(g):
             A = resolved_path(g, a0)
             if A is None or resolved_path(g, a2) != A:
                 continue
-            if a1["k"] == "BinaryOperator" and a1["op"] == "+" and resolved_path(g, a1["lhs"]) == A:
-                out.append((A, a1["rhs"], -1, n, n))
+            # last = A + e1 (+ e2 ...): the terms of the sum other than the array itself
+            terms, work = [], [a1]
+            while work:
+                x = strip(work.pop())
+                if x["k"] == "BinaryOperator" and x["op"] == "+":
+                    work += [x["rhs"], x["lhs"]]
+                else:
+                    terms.append(x)
+            base = [x for x in terms if resolved_path(g, x) == A]
+            rest = [x for x in terms if resolved_path(g, x) != A]
+            if len(base) == 1 and rest:
+                out.append((A, rest, -1, n, n))
     return out
 
 
@@ -1050,7 +1089,12 @@ def r_cumsum(db, rep):
             apos = cfg.position(posn)
             if apos is None:
                 continue
-            end = pinned_sym(db, g, endx, None, None)
+            if isinstance(endx, list):
+                end = pinned_sym(db, g, endx[0], None, None)
+                for x in endx[1:]:
+                    end = symx.mk_op("+", end, pinned_sym(db, g, x, None, None))
+            else:
+                end = pinned_sym(db, g, endx, None, None)
             if adj:
                 end = symx.mk_op("-", end, symx.C(1))
             rep.inst(g.nloc(anchor), "%s: cumulative pass over %s up to index %s" % (g.qn, fmt_path(g, A), symx.canon(end)))
@@ -1111,3 +1155,82 @@ def r_cumsum(db, rep):
                     rep.viol("%s#%s-cumsum-short-of-use" % (g.qn, fmt_path(g, A).replace("this->", "")), g.nloc(n),
                              "%s: the loop at %s reads %s up to index %s, but the cumulative pass before it stopped at %s (e.g. %s): the "
                              "entries in between are plain counts" % (g.qn, g.nloc(n), fmt_path(g, A), symx.canon(last), symx.canon(end), wit), g.qn)
+
+
+# ---------------------------------------------------------------------------------------------------
+def _array_extent(f, t):
+    import re
+    m = re.search(r"\[(\d+)\]$", t.get("s", ""))
+    return int(m.group(1)) if m else None
+
+
+def _fixedbuf(db, rep, file_ok):
+    """Stores into fixed-size arrays (locals, members, file-scope) through a run-time index."""
+    for f in sorted(db.funcs.values(), key=lambda x: (x.file, x.line)):
+        if not f.body or not file_ok(f.file):
+            continue
+        sites = []
+        for lv, w in written_lvalues(f):
+            s = strip(lv)
+            if s["k"] != "ArraySubscriptExpr":
+                continue
+            b = strip(s["base"])
+            t = f.type(b) or {}
+            if t.get("kind") != "array":
+                continue
+            N = _array_extent(f, t)
+            if N is None:
+                continue
+            sites.append((s, w, b, N))
+        if not sites:
+            continue
+        rep.visit(f)
+        for s, w, b, N in sites:
+            name = fmt_path(f, access_path(f, b)) if access_path(f, b) else "array"
+            idx = strip(s["idx"])
+            rep.inst(f.nloc(w), "%s: store into %s[%d]" % (f.qn, name, N))
+            rep.ob()
+            cv = const_value(idx)
+            if cv is not None:
+                if not (0 <= cv < N):
+                    rep.viol("%s#%s-const-index" % (f.qn, name), f.nloc(w), "%s stores at constant index %d of %s, which has %d elements" % (f.qn, cv, name, N), f.qn)
+                continue
+            if N >= 256 and _byte_valued(f, idx):
+                continue
+            # the variable that carries the index (v, v++, ++v, v + c)
+            core_ = idx
+            while core_["k"] == "UnaryOperator" and core_["op"] in ("++", "--"):
+                core_ = strip(core_["sub"])
+            if core_["k"] == "BinaryOperator" and core_["op"] in ("+", "-") and const_value(core_["rhs"]) is not None:
+                core_ = strip(core_["lhs"])
+            vp = access_path(f, core_)
+            # every compile-time bound known to hold at the store: guards  x < K, x <= K, K > x, x != K (loop form) on any variable
+            bounded = False
+            mentions = False
+            for c, pol in (f.cfg.guards(w) if f.cfg is not None else []):
+                c = strip(c)
+                if c["k"] != "BinaryOperator" or c["op"] not in ("<", "<=", ">", ">=", "!=", "=="):
+                    continue
+                for a, b2, op in ((c["lhs"], c["rhs"], c["op"]), (c["rhs"], c["lhs"], {"<": ">", "<=": ">=", ">": "<", ">=": "<=", "!=": "!=", "==": "=="}[c["op"]])):
+                    if vp is not None and access_path(f, a) == vp:
+                        mentions = True
+                    k = const_value(b2)
+                    if k is None:
+                        continue
+                    eff = op if pol else {"<": ">=", "<=": ">", ">": "<=", ">=": "<", "!=": "==", "==": "!="}[op]
+                    if eff in ("<", "<=", "!=", "=="):
+                        bounded = True
+            if bounded or mentions:
+                # a bound exists; whether it is tight enough is a value question that is left to the compiler's own
+                # -Warray-bounds and to review: recorded
+                continue
+            rep.viol("%s#%s-unbounded-index" % (f.qn, name), f.nloc(w),
+                     "%s stores into %s, a fixed array of %d elements, at a run-time index that no condition on the way to the store "
+                     "compares with anything (no loop bound or guard with a compile-time limit, no test of the index): the number of "
+                     "stores is governed by the data alone, so a large enough input writes past the array" % (f.qn, name, N), f.qn)
+
+
+@rule("R-FIXEDBUF", 2, "stores into fixed-size arrays are bounded: a run-time index is a byte into a table of at least 256 entries, or some "
+                       "condition that holds at the store tests the index or bounds the iteration by a compile-time constant")
+def r_fixedbuf(db, rep):
+    _fixedbuf(db, rep, lambda fl: not fl.startswith("libcds/"))
